@@ -300,6 +300,13 @@ def check_case(c):
         c = dict(c, field=dict(c["field"], size_max=1.5))
     if c.get("far"):
         c = dict(c, field=dict(c["field"], far=c["far"]))
+    if c["field"]["noise"] != "none" and c["mode"] != "prior-synth":
+        # runtime only (as in C13): crowded noisy fields merge into islands with many summits, each of which takes the
+        # optimiser minutes with the covariance weighting
+        fc = dict(c["field"])
+        fc["nsrc"] = min(fc["nsrc"], 10 if fc["layout"] == "random" else 24)
+        fc["blend_rate"] = min(fc["blend_rate"], 0.2)
+        c = dict(c, field=fc)
     F = fields.build_field(c["field"])
     what = "%s (noise=%s, %d truth sources, islandflux=%s max_summits=%s stage=%d regroup=%s)" % (
         c["mode"], c["field"]["noise"], len(F["truth"]), c["islandflux"], c["max_summits"], c["stage"], c["regroup"])
